@@ -709,3 +709,48 @@ pub fn perft(p: &MPos, depth: u32) -> u64 {
     }
     moves.iter().map(|m| perft(&p.apply(m), depth - 1)).sum()
 }
+
+/// Geometric well-formedness of a non-null move tuple, independent of any position:
+/// is there *some* position in which this (kind, man, from, to) could be pseudo-legal?
+pub fn well_formed(k: MKind, m: u8, from: Sq, to: Sq) -> bool {
+    if m == EMPTY || from == to {
+        return false;
+    }
+    let w = is_white(m);
+    let df = (file_of(to) as i8 - file_of(from) as i8).abs();
+    let dr_signed = rank_of(to) as i8 - rank_of(from) as i8;
+    let dr = dr_signed.abs();
+    let fwd: i8 = if w { 1 } else { -1 };
+    let pk = kind(m);
+    match k {
+        MKind::Simple => match pk {
+            b'P' => {
+                df <= 1
+                    && dr_signed == fwd
+                    && rank_of(from) != 0
+                    && rank_of(from) != 7
+                    && rank_of(to) != 0
+                    && rank_of(to) != 7
+            }
+            b'K' => df <= 1 && dr <= 1,
+            b'N' => (df == 1 && dr == 2) || (df == 2 && dr == 1),
+            b'B' => df == dr,
+            b'R' => df == 0 || dr == 0,
+            b'Q' => df == dr || df == 0 || dr == 0,
+            _ => false,
+        },
+        MKind::CastleK => pk == b'K' && from == sq(4, if w { 0 } else { 7 }) && to == sq(6, if w { 0 } else { 7 }),
+        MKind::CastleQ => pk == b'K' && from == sq(4, if w { 0 } else { 7 }) && to == sq(2, if w { 0 } else { 7 }),
+        MKind::Double => {
+            pk == b'P' && df == 0 && rank_of(from) == if w { 1 } else { 6 } && rank_of(to) == if w { 3 } else { 4 }
+        }
+        MKind::EnPassant => {
+            pk == b'P' && df == 1 && rank_of(from) == if w { 4 } else { 3 } && rank_of(to) == if w { 5 } else { 2 }
+        }
+        MKind::PromoN | MKind::PromoB | MKind::PromoR | MKind::PromoQ => {
+            pk == b'P' && df <= 1 && rank_of(from) == if w { 6 } else { 1 } && rank_of(to) == if w { 7 } else { 0 }
+        }
+    }
+}
+
+pub const MEN: [u8; 12] = *b"PKNBRQpknbrq";
